@@ -59,10 +59,32 @@ fn read_clock(sim: &Sim) -> Clock {
     }
 }
 
-#[derive(Clone, Debug, PartialEq, Eq)]
+#[derive(Clone, PartialEq, Eq)]
 pub enum Op {
     NextRound { round: u64, ts: i64, gaps: usize, leader: u8, tag: String },
     Query,
+}
+
+/// Compact, parseable rendering (used in samples and replay files): `NR:<round>:<ts>:<gaps>:<leader>:<tag>` | `Q`.
+impl std::fmt::Debug for Op {
+    fn fmt(&self, f: &mut std::fmt::Formatter<'_>) -> std::fmt::Result {
+        match self {
+            Op::NextRound { round, ts, gaps, leader, tag } => write!(f, "NR:{round}:{ts}:{gaps}:{leader}:{tag}"),
+            Op::Query => write!(f, "Q"),
+        }
+    }
+}
+
+fn op_parse(s: &str) -> Option<Op> {
+    let s = s.trim_matches('"');
+    if s == "Q" {
+        return Some(Op::Query);
+    }
+    let f: Vec<&str> = s.splitn(6, ':').collect();
+    if f.len() < 5 || f[0] != "NR" {
+        return None;
+    }
+    Some(Op::NextRound { round: f[1].parse().ok()?, ts: f[2].parse().ok()?, gaps: f[3].parse().ok()?, leader: f[4].parse().ok()?, tag: f.get(5).unwrap_or(&"").to_string() })
 }
 
 pub struct St {
@@ -350,16 +372,39 @@ fn transition_invariants(pre: &Clock, post: &Clock, tag: &str) -> Result<(), (St
     Ok(())
 }
 
-pub fn run(ctx: Ctx) -> ! {
-    if ctx.replay.is_some() {
-        let case = ctx.read_replay_case().unwrap();
-        println!("C44 replay: re-run the recorded history by hand; case = {case}");
-        ctx.finish(Level::ModelChecking, "replay", 0, false, Map::new(), &[]);
-    }
-    let configs = [
+fn configs() -> [(&'static str, EpochChangeCondition); 2] {
+    [
         ("rounds-3-per-epoch", EpochChangeCondition { min_round_count: 3, max_round_count: 3, target_duration_millis: 0 }),
         ("duration-60s-per-epoch", EpochChangeCondition { min_round_count: 1, max_round_count: 1000, target_duration_millis: 60_000 }),
-    ];
+    ]
+}
+
+fn replay(ctx: Ctx) -> ! {
+    let case = ctx.read_replay_case().unwrap();
+    let base = case.get("base").and_then(|b| b.as_str()).unwrap_or("").to_string();
+    let (_, cond) = configs().into_iter().find(|(n, _)| base.starts_with(n)).unwrap_or_else(|| mc_core::machinery_error("replay: unknown base configuration"));
+    let m = ClockMachine::new(cond, false);
+    let mut st = m.init();
+    println!("root  {:?}", st.clock);
+    let hist: Vec<Op> = case.get("history").and_then(|h| h.as_array()).map(|a| a.iter().filter_map(|x| x.as_str().and_then(op_parse)).collect()).unwrap_or_default();
+    for op in &hist {
+        match m.step(&mut st, op) {
+            Ok(c) => println!("{op:?} -> {c}  {:?}", st.clock),
+            Err((k, w)) => {
+                println!("{op:?} -> VIOLATION {k}: {w}");
+                ctx.violation(k, w, case.clone());
+                break;
+            }
+        }
+    }
+    ctx.finish(Level::ModelChecking, "replay", 0, false, Map::new(), &[])
+}
+
+pub fn run(ctx: Ctx) -> ! {
+    if ctx.replay.is_some() {
+        replay(ctx);
+    }
+    let configs = configs();
     let (full_depth, reduced_depth) = ctx.pick((3usize, 4usize), (5, 6));
     let mut total = BfsStats::default();
     let mut per_run = vec![];
